@@ -201,7 +201,7 @@ def close1(ctx, rule="CLOSE-1"):
         if ok and must_prop:
             b, t = fin[0]
             tags = classify(f, du, t["dest"]["l"])
-            ctx.check("propagated" in tags or "returned" in tags, rule, "%s propagates the finisher's error" % short(name), str(sorted(tags)),
+            ctx.check("propagated" in tags or "returned" in tags or "rethrown" in tags, rule, "%s propagates the finisher's error" % short(name), str(sorted(tags)),
                       "%s does not propagate the result of finish(): %s" % (short(name), sorted(tags)), f.loc(t["sp"]), fn=f.name, key="%s|%s|prop" % (rule, short(name)))
     f = prog.fn(P + "flush")
     cf = [(b, t) for b, t in f.calls() if cname(prog, t) == "cfb::CompoundFile::<F>::flush"]
@@ -209,6 +209,7 @@ def close1(ctx, rule="CLOSE-1"):
     if ok:
         # the container flush is reached on both edges (finisher present or absent), only error returns skip it
         resid = {b for b, t in f.calls() if (t.get("callee") or "").endswith("FromResidual::from_residual")}
+        resid |= {bl["id"] for bl in f.blocks if not bl["cleanup"] for st in bl["stmts"] if st["lhs"]["l"] == 0 and not st["lhs"]["p"] and st["rhs"]["rv"] == "agg" and st["rhs"].get("variant") == "Err"}
         ok = not (set(f.returns()) & cfg.reachable(f, 0, avoid={cf[0][0]} | resid))
     ctx.check(ok, rule, "flush returns CompoundFile::flush", "", "Package::flush does not end by returning the result of CompoundFile::flush on every non-error path", f.loc(), fn=f.name,
               key="%s|flush|container" % rule)
@@ -427,3 +428,42 @@ def dirty2(ctx, rule="DIRTY-2"):
         ok = ok and (empty or not fs) and len(fs) <= 1
     boxed = [t for b, t in f.calls() if (t.get("callee") or "").endswith("Box::<T>::new") and "FinishImpl" in (t.get("written") or "")]
     ctx.check(ok and len(boxed) == 1, rule, "set_finisher stores Some(Box<FinishImpl>) when empty", "", "set_finisher does not store Some(Box::new(FinishImpl)) into an empty slot", f.loc(), fn=f.name)
+
+
+def close3(ctx, rule="CLOSE-3"):
+    """a failed save keeps the finisher armed"""
+    prog = ctx.prog
+    ctx.rule(rule, "Package::flush takes the finisher out of its slot before running it; on every path on which Finish::finish did not succeed, the slot is filled again "
+                   "(self.finisher = Some(..)) before flush returns — otherwise the next flush finds no finisher, writes nothing and reports Ok although the pool, the "
+                   "summary and the dirty flags are still pending")
+    f = prog.fn(P + "flush")
+    S = Sym(prog, f)
+    fin = [(b, t) for b, t in f.calls() if (t.get("callee") or "").endswith("Finish::finish") or cname(prog, t).endswith("Finish<F>>::finish") or cname(prog, t).endswith("::finish")]
+    fin = [(b, t) for b, t in fin if "Finish" in (t.get("callee") or "") + cname(prog, t)]
+    if not ctx.check(len(fin) == 1, rule, "flush runs the finisher", "", "Package::flush has %d calls of Finish::finish, expected 1" % len(fin), f.loc(), fn=f.name, key=rule + "|anchor"):
+        return
+    fb = fin[0][0]
+    ok_targets = set()
+    for bl in f.blocks:
+        if bl["cleanup"] or bl["term"]["t"] != "switch":
+            continue
+        d = S.val(bl["term"]["discr"])
+        direct = re.fullmatch(r"discr\(call@%d:.*\)" % fb, d)
+        viatry = re.fullmatch(r"discr\(call@(\d+):<std::result::Result<T, E> as std::ops::Try>::branch\)", d)
+        if viatry:
+            a = S.val(f.blocks[int(viatry.group(1))]["term"]["args"][0])
+            viatry = a.startswith("call@%d:" % fb)
+        if direct or viatry:
+            cases = bl["term"]["cases"]
+            for v, tg in cases:
+                if v == 0:
+                    ok_targets.add(tg)
+            if [v for v, tg in cases] == [1]:
+                ok_targets.add(bl["term"]["otherwise"])  # `if let Err(e) = ..`: everything but Err is the success edge
+    rearm = {b for (b, s) in field_assigns(f, "finisher") if s["rhs"]["rv"] == "agg" and s["rhs"].get("variant") == "Some" or
+             (s["rhs"]["rv"] == "use" and "Some" in S.val(s["rhs"]["ops"][0]))}
+    nxt = f.blocks[fb]["term"]["succ"][0]
+    bad = set(f.returns()) & cfg.reachable(f, nxt, avoid=ok_targets | rearm)
+    ctx.check(bool(ok_targets) and not bad, rule, "a failed finish leaves the finisher armed", "success edge(s) bb%s, re-arm in bb%s" % (sorted(ok_targets), sorted(rearm)),
+              "Package::flush can return after Finish::finish failed without putting the finisher back: the next flush() returns Ok without saving the string pool / summary "
+              "(failing history: insert rows; flush() fails on a write; flush() again -> Ok; reopen shows empty strings)", f.loc(), fn=f.name, key=rule + "|flush")
